@@ -127,6 +127,9 @@ pub fn cmd_record(args: &HashMap<String, String>) -> i32 {
     let steps: usize = args["steps"].parse().unwrap();
     let seed: u64 = args.get("seed").map(|s| s.parse().unwrap()).unwrap_or(1);
     let crash_pct: u32 = args.get("crash").map(|s| s.parse().unwrap()).unwrap_or(0);
+    let powerloss_pct: u32 = args.get("powerloss").map(|s| s.parse().unwrap()).unwrap_or(0);
+    let mut npower = 0usize;
+    let mut npower_changed = 0usize;
     let small = args.contains_key("small");
     DUMPS.store(args.contains_key("dumps"), Ordering::Relaxed);
     let u = if args.contains_key("boundary") {
@@ -138,6 +141,12 @@ pub fn cmd_record(args: &HashMap<String, String>) -> i32 {
     let mut dir = fresh_dir(&root, "rec");
     let rec = Recorder::install();
     let mut rng = SmallRng::seed_from_u64(seed ^ 0x9e3779b97f4a7c15);
+    if powerloss_pct > 0 {
+        let shadow = root.join("shadow");
+        let _ = std::fs::remove_dir_all(&shadow);
+        std::fs::create_dir_all(&shadow).expect("shadow dir");
+        *rec.durable.lock().unwrap() = Some(DurableState::new(dir.clone(), shadow));
+    }
     let mut db = Some(Db::open_or_create(&options(&dir, &u.cols, seed, false)).expect("create"));
     // index growth preamble (columns marked `grow`): afterwards record ids run ahead of commit ids
     if let Err(e) = grow_preamble(db.as_ref().unwrap(), &u.cols, seed % 2 == 0) {
@@ -306,6 +315,21 @@ pub fn cmd_record(args: &HashMap<String, String>) -> i32 {
                 gen += 1;
                 let img = root.join(format!("img{gen}"));
                 let inside = forced_aim.is_some() || rng.gen::<u32>() % 3 != 0;
+                // power loss instead of a process crash: data not yet synced may be gone.  The image is cut
+                // down at the instant it is taken (the sync state moves on while the burst continues).
+                let do_power = powerloss_pct > 0 && rng.gen::<u32>() % 100 < powerloss_pct;
+                let pl_seed = rng.gen::<u64>();
+                let power = |img: &std::path::Path| -> Option<u64> {
+                    if !do_power {
+                        return None
+                    }
+                    let g = rec.durable.lock().unwrap();
+                    let d = g.as_ref()?;
+                    let mut prng = SmallRng::seed_from_u64(pl_seed);
+                    let mut pick = |n: u64| if n == 0 { 0 } else { prng.gen::<u64>() % n };
+                    crate::sys::quiet(|| d.apply_power_loss(img, &mut pick)).ok()
+                };
+                let pl_result: Arc<Mutex<Option<u64>>> = Arc::new(Mutex::new(None));
                 if inside {
                     // the j-th event of the burst, or (aimed) the instant right after the old index
                     // file of a finished growth was unlinked / after a log file was truncated
@@ -321,6 +345,8 @@ pub fn cmd_record(args: &HashMap<String, String>) -> i32 {
                     let n = Arc::new(AtomicUsize::new(0));
                     let src = dir.clone();
                     let img2 = img.clone();
+                    let rec2 = rec.clone();
+                    let plr2 = pl_result.clone();
                     rec.set_callback(Some(Arc::new(move |name: &str, _a: &[u64], pos: usize| {
                         let k = n.fetch_add(1, Ordering::SeqCst);
                         let hit = match aimed {
@@ -330,6 +356,14 @@ pub fn cmd_record(args: &HashMap<String, String>) -> i32 {
                         if hit && cut2.lock().unwrap().is_none() {
                             if crate::sys::quiet(|| copy_dir(&src, &img2)).is_ok() {
                                 *cut2.lock().unwrap() = Some(pos);
+                                if do_power {
+                                    let g = rec2.durable.lock().unwrap();
+                                    if let Some(d) = g.as_ref() {
+                                        let mut prng = SmallRng::seed_from_u64(pl_seed);
+                                        let mut pick = |n: u64| if n == 0 { 0 } else { prng.gen::<u64>() % n };
+                                        *plr2.lock().unwrap() = crate::sys::quiet(|| d.apply_power_loss(&img2, &mut pick)).ok();
+                                    }
+                                }
                             }
                         }
                     })));
@@ -360,10 +394,18 @@ pub fn cmd_record(args: &HashMap<String, String>) -> i32 {
                         None => {
                             // fewer than j events: crash at the end of the burst
                             copy_dir(&dir, &img).map_err(|e| format!("image: {e}"))?;
+                            *pl_result.lock().unwrap() = power(&img);
                         },
                     }
                 } else {
                     copy_dir(&dir, &img).map_err(|e| format!("image: {e}"))?;
+                    *pl_result.lock().unwrap() = power(&img);
+                }
+                if let Some(n) = *pl_result.lock().unwrap() {
+                    npower += 1;
+                    if n > 0 {
+                        npower_changed += 1;
+                    }
                 }
                 rec.push(json!({"e": "Crash"}));
                 // the old process is gone: its drop is not part of the history
@@ -373,6 +415,13 @@ pub fn cmd_record(args: &HashMap<String, String>) -> i32 {
                 rec.set_enabled(true);
                 let _ = std::fs::remove_dir_all(&dir);
                 dir = img;
+                if powerloss_pct > 0 {
+                    // what the image holds is on stable storage
+                    let shadow = root.join("shadow");
+                    let _ = std::fs::remove_dir_all(&shadow);
+                    let _ = std::fs::create_dir_all(&shadow);
+                    *rec.durable.lock().unwrap() = Some(DurableState::new(dir.clone(), shadow));
+                }
                 let nd = catch(|| Db::open(&options(&dir, &u.cols, seed, false)))
                     .map_err(|p| format!("panic while opening crash image: {p}"))?
                     .map_err(|e| format!("opening crash image failed: {e}"))?;
@@ -492,7 +541,8 @@ pub fn cmd_record(args: &HashMap<String, String>) -> i32 {
     Recorder::uninstall();
     let events = rec.take();
     write_trace(&args["out"], &events);
-    let summary = json!({"events": events.len(), "crashes": ncrash, "restarts": nrestart, "problems": problems, "universe": u.describe(), "init_rid": init_rid, "init_cid": init_cid, "nvals": u.nvals, "values_swept": SWEEP.load(Ordering::SeqCst)});
+    let summary = json!({"events": events.len(), "crashes": ncrash, "restarts": nrestart, "problems": problems, "universe": u.describe(), "init_rid": init_rid, "init_cid": init_cid, "nvals": u.nvals, "values_swept": SWEEP.load(Ordering::SeqCst),
+                         "powerloss_images": npower, "powerloss_images_with_data_dropped": npower_changed});
     println!("{}", summary);
     let _ = std::fs::remove_dir_all(&root);
     if problems.is_empty() {
